@@ -37,6 +37,9 @@ def shapes():
     S["threegen_duo"] = ([2, 2, 2, 2], [(-1, -1), (-1, -1), (0, 1), (2, -1)], [(1, 1)] * 4, [(0, 0)] * 4, 2)
     S["threegen_duo_q"] = ([2, 2, 2, 2], [(-1, -1), (-1, -1), (1, 0), (-1, 2)], [(1, 1)] * 4, [(0, 0)] * 4, 2)
     S["duo_then_trio"] = ([2, 2, 2, 2], [(-1, -1), (0, -1), (-1, -1), (1, 2)], [(1, 1)] * 4, [(0, 0)] * 4, 2)
+    # progeny listed before their parents (sample order is the order of the BAM arguments, not of the generations)
+    S["trio_progeny_first"] = ([2, 2, 2], [(1, 2), (-1, -1), (-1, -1)], [(1, 1)] * 3, [(0, 0)] * 3, 3)
+    S["sibs_progeny_first"] = ([2, 2, 2, 2], [(2, 3), (3, 2), (-1, -1), (-1, -1)], [(1, 1)] * 4, [(0, 0)] * 4, 2)
     S["threegen_duo_mixed"] = ([4, 4, 4, 3], [(-1, -1), (-1, -1), (0, 1), (2, -1)], [(2, 2), (2, 2), (2, 2), (2, 1)], [(0, 0), (0, 0), (0.1, 0), (0, 0)], 2)
     return S
 
